@@ -81,26 +81,15 @@ func serverEffects(c *core.Ctx, R string) {
 	refused := nilGuard(true, func(x *core.Unit, e ast.Expr) bool { return isLocalAnyDepth(x, e, "codeMessage") })
 	// ---- HandleRequest$callback ----
 	if u := c.Fn(R, srvHandle+"$callback"); u != nil && localAnchors(c, R, u, "codeMessage") {
-		hasSid := func(x *core.Unit, br core.Branch) int {
-			cmp, ok := x.BranchCmp(br)
-			if !ok || cmp.Val == nil || trimQuotes(cmp.Val.ExactString()) != "" {
-				return 0
-			}
-			ce, key := x.AsCall(cmp.X)
+		// the request names a session: Peek("sid") is non-empty, in any spelling (`!= ""`, `len(…) != 0`, `len(…) > 0` …)
+		hasSid := gStrExprNonEmpty(func(x *core.Unit, e ast.Expr) bool {
+			ce, key := x.AsCall(e)
 			if ce == nil || !strings.HasSuffix(key, ".Peek") || len(ce.Args) != 1 {
-				return 0
+				return false
 			}
-			if s, _ := core.ConstString(x.Info(), ce.Args[0]); s != "sid" {
-				return 0
-			}
-			if cmp.Op.String() == "!=" {
-				return 1
-			}
-			if cmp.Op.String() == "==" {
-				return -1
-			}
-			return 0
-		}
+			s, _ := core.ConstString(x.Info(), ce.Args[0])
+			return s == "sid"
+		})
 		noTransport := nilGuard(false, func(x *core.Unit, e ast.Expr) bool {
 			d, ok := x.SingleDef(e)
 			te, isT := d.(*core.TupleElem)
